@@ -250,6 +250,8 @@ def f_core():
     add("pos-append-pair", cmd("p", [arg("p1", action="Append", num=(2, 2)), arg("f", "f", action="SetTrue")]))
     add("opt-unbounded-default-action", cmd("p", [arg("o", "o", "opt", num=(1, None)), arg("q", "q", "qq", num=(0, None)), arg("f", "f", action="SetTrue")]))
     add("opt-append-fixed", cmd("p", [arg("o", "o", "opt", action="Append", num=(2, 2)), arg("s", "s", "set", num=(2, 2)), arg("p1")]))
+    add("pos-zero-or-one-then-last", cmd("p", [arg("p1", num=(0, 1)), arg("p2", last=True), arg("f", "f", action="SetTrue")]))
+    add("pos-zero-or-one-last", cmd("p", [arg("p0"), arg("p1", num=(0, 1)), arg("o", "o", "opt", num=(0, 1))]))
     add("delim-multibyte", cmd("p", [arg("o", "o", "opt", delim="\u3001", action="Append"), arg("p1", num=(0, None), delim="\U0001F600")]),
         extra=["a\u3001b", "--opt=x\u3001y", "c\U0001F600d", "\u3001"])
     add("missing-delim-dont-trailing", cmd("p", [arg("o", "o", "opt", num=(0, None), delim=",", missing=["a,b"]), arg("p1", num=(0, None), delim=",")],
@@ -580,6 +582,9 @@ def f_tree():
     add("global-settings-depth-2", cmd("p", [arg("t", "t", action="SetTrue")], subs=[cmd("mid", [arg("m", "m", "mm", action="SetTrue")], subs=[deep])],
                                        dont_delimit_trailing_values=True, infer_long_args=True, infer_subcommands=True, disable_help_subcommand=True),
         extra=["mid", "deep", "a,b", "--long", "--", "dee", "deeper", "--wi", "help"])
+    # the low-index look-ahead also stops at a subcommand name
+    add("low-index-multi-with-subs", cmd("p", [arg("files", num=(1, None), required=True), arg("dest", required=True), arg("f", "f", action="SetTrue")], subs=[leaf]),
+        extra=["leaf", "a", "b"])
     # what becomes of argv[0]
     applets = [cmd("true"), cmd("ls", [arg("l", "l", "long", action="SetTrue"), arg("path", num=(0, None))], aliases=["dir"]),
                cmd("box", subs=[cmd("inner", [arg("i", "i", action="SetTrue")])])]
